@@ -17,13 +17,20 @@ def run(ctx):
     quick = ctx.tier == "quick"
     n_choose = 3000 if quick else 40000
     n_runq = 1500 if quick else 30000
+    n_cq = 400 if quick else 15000
     stride = 16 if quick else 1
 
     def stages(ctx, mult, suffix, off):
         # ChooseInstanceType / EstimateScratchSpace (package dispatchcloud, exported API)
-        ctx.stage("choose" + suffix, "lib/dispatchcloud", "dispatchcloud", ["C16/zz_verif_c16_test.go"], "TestVerifC16$",
+        dc_files = ["C16/zz_verif_c16_test.go", "C16/zz_verif_c16cq_test.go"]   # same file set: one test binary build
+        ctx.stage("choose" + suffix, "lib/dispatchcloud", "dispatchcloud", dc_files, "TestVerifC16$",
                   n_choose * mult, HDR.format(imports="model.C16_model model.C16_run"), seed_offset=off, shard=400,
                   env={"VERIF_STAGE": "choose" + suffix}, replace=_replace())
+        # the real container.Queue built with dispatcher.typeChooser against a stub API server: what becomes a queue
+        # entry with which InstanceType, what gets cancelled with the ChooseInstanceType error (package dispatchcloud)
+        ctx.stage("cq" + suffix, "lib/dispatchcloud", "dispatchcloud", dc_files, "TestVerifC16CQ$",
+                  n_cq * mult, HDR.format(imports="model.C16_model model.C16_run model.C16_runq model.C16_cq model.C16_cq_run"),
+                  seed_offset=off, shard=50 if quick else 400, env={"VERIF_STAGE": "cq" + suffix}, replace=_replace())
         # (*Scheduler).runQueue against the recording scripted stub pool/queue (package scheduler)
         rq_hdr = HDR.format(imports="model.C16_runq model.C16_runq_run")
         ctx.stage("runq" + suffix, "lib/dispatchcloud/scheduler", "scheduler", ["C16/zz_verif_c16rq_test.go"], "TestVerifC16RQ$",
@@ -35,11 +42,17 @@ def run(ctx):
                       0, rq_hdr, shard=400, env={"VERIF_STAGE": "rqexh", "VERIF_STRIDE": str(stride)}, timeout=1800,
                       replace=_replace())
     return standard(
-        ctx, "C16", ["model/C16_run.vo", "model/C16_runq_run.vo"], stages,
+        ctx, "C16", ["model/C16_run.vo", "model/C16_runq_run.vo", "model/C16_cq_run.vo"], stages,
         rule="choose: tables of 0-12 types (prices k/4 with many ties, twins, preemptible flags), one dimension (RAM after the "
              "100/95 scaling, VCPUs, scratch incl. image estimate) placed at exact fit / one unit above / below a target type, "
              "all ReserveExtraRAM values of the palette, int64-overflow and negative-spec strata, 12 PDH shapes; non-trivial = "
-             "at least 2 types.  runq: snapshots of 0-16 containers (distinct/tied/zero/negative priorities, all states), 1-3 "
+             "at least 2 types.  cq: one judged Update of the real container.Queue (dispatcher.typeChooser on tables of 0-4 "
+             "types with twins) over 1-6 API records first seen Queued / Locked or Running by this dispatcher's token (a "
+             "dispatcher that has just started) / Locked by somebody else / final, constraints at exact fit, one unit above in "
+             "RAM / VCPUs / scratch, above every type, image-dominated, with or without an earlier poll followed by legal state "
+             "changes, arrivals and deletions, failing lock / runtime_status / cancel requests; non-trivial = at least 2 entries "
+             "or cancellations.  runq: snapshots of 0-16 containers (distinct/tied/zero/negative priorities, all states, "
+             "created_at zero / equal / increasing / decreasing with priority / unrelated), 1-3 "
              "types, Unallocated/idle counts incl. inconsistent ones and missing keys, AtQuota/Create scripts that change "
              "during the pass; non-trivial = at least 2 pool/queue calls.  distinct by hash of the case term.",
         assumptions=[
@@ -48,6 +61,11 @@ def run(ctx):
             "can produce for SOME order (all permutations for <=5 types; proved order-independent characterisation above; all "
             "arrangements of tied priorities for runQueue)",
             "lockContainer goroutines are awaited by watching runtime.NumGoroutine(); their Lock calls are compared as a set",
+            "cq: the cancel goroutines of addEnt are awaited the same way (bound 60 s, expiry recorded as an observation); their "
+            "requests are compared per container; which of several tied cheapest types an entry carries is compared as a "
+            "relation (some iteration order of the table); the runtime_status message is compared as a class (equal to the "
+            "message of the error ChooseInstanceType returns for that container), not as text; theorem C16_cq_update_meets_spec "
+            "assumes that a container first seen Running or later never returns to Queued/Locked (generated histories obey it)",
             "theorems about 'cheapest' assume RAM and VCPUs of configured types are >= 0 (C16_choose_needs_sane shows the code's "
             "behaviour otherwise; the model reproduces it and the harness compares it on small tables)",
         ])
